@@ -500,6 +500,19 @@ class _Hooks:
     epoch = 0
 
 
+def _make_stale(v):
+    def stale(*a):
+        raise Unsupported("read of a slice / reshape view after its base array was modified (aliasing guard)")
+    try:
+        v.items = None
+    except Exception:
+        pass
+    if hasattr(v, "rows"):
+        v.rows = None
+    v.fn = stale
+    v._view_of = None
+
+
 def check_index(i, n):
     if _Hooks.index_check is not None:
         _Hooks.index_check(i, n)
@@ -720,8 +733,13 @@ class Arr:
         if self._view_of is not None and self._view_of() is not None:
             raise Unsupported("in-place write through a slice view (aliasing guard)")
         if self._views:
-            if any(r() is not None for r in self._views):
-                raise Unsupported("in-place write to an array that has live slice views (aliasing guard)")
+            # the views were modelled as snapshots of this array: after this write they no longer show what numpy's views would.
+            # The write itself is fine (numpy evaluates the right-hand side first); what is not modelled is a later READ of such a
+            # view, so the outstanding views become stale -- reading one is `unsupported` -- instead of refusing the write
+            for r in self._views:
+                v = r()
+                if v is not None:
+                    _make_stale(v)
             self._views = None
 
     def set(self, i, v):
